@@ -664,3 +664,94 @@ func VerifC14InExpressionXML() {
 	verifAssert(verifEqStr(got, want), "C14/in-expression-xml-differs-from-xml-output "+label)
 	verifCover("C14/inexpr-xml/end")
 }
+
+// c14LuaNumeral: reference reader of a Lua 5.4 integer numeral as the encoder may write it (reference manual §3.1):
+// decimal digits or 0x hexadecimal digits, optionally behind a unary minus. Lua has no unary plus, no octal or binary
+// prefixes and no digit separators.
+func c14LuaNumeral(t string) (int64, bool) {
+	neg := false
+	if len(t) > 0 && verifConcreteBool(t[0] == '-') {
+		neg, t = true, t[1:]
+	}
+	if len(t) == 0 {
+		return 0, false
+	}
+	var v int64
+	if len(t) > 2 && verifConcreteBool(t[0] == '0' && (t[1] == 'x' || t[1] == 'X')) {
+		for i := 2; i < len(t); i++ {
+			c := t[i]
+			switch {
+			case verifConcreteBool(c >= '0' && c <= '9'):
+				v = v*16 + int64(c-'0')
+			case verifConcreteBool(c >= 'a' && c <= 'f'):
+				v = v*16 + int64(c-'a') + 10
+			case verifConcreteBool(c >= 'A' && c <= 'F'):
+				v = v*16 + int64(c-'A') + 10
+			default:
+				return 0, false
+			}
+		}
+	} else {
+		for i := 0; i < len(t); i++ {
+			c := t[i]
+			if !verifConcreteBool(c >= '0' && c <= '9') {
+				return 0, false
+			}
+			v = v*10 + int64(c-'0')
+		}
+	}
+	if neg {
+		v = -v
+	}
+	return v, true
+}
+
+// VerifC14LuaNumbers: an integer in any YAML spelling (decimal, signed, hexadecimal, octal, with digit separators;
+// digits symbolic) is written to Lua as a numeral a Lua reader accepts and that denotes the same number.
+func VerifC14LuaNumbers() {
+	var text string
+	var val int64
+	if verifChoice("odd", 2) == 1 {
+		odd := []string{"+12", "+0", "1_000", "0x1F", "0X1f", "-0", "0o17", "+0x10", "0x1_0", "-1_0"}
+		vals := []int64{12, 0, 1000, 31, 31, 0, 15, 16, 16, -10}
+		i := verifChoice("which", len(odd))
+		text, val = odd[i], vals[i]
+	} else {
+		text, val = c15SpelledInt("n")
+	}
+	// is it an integer to yq at all? (the value the JSON route gives is the reference for "the same number")
+	_, parsed, perr := parseInt64(text)
+	if perr != nil {
+		verifCover("C14/luanum/not-an-integer-to-yq")
+		return
+	}
+	verifAssert(parsed == val, "C14/lua-number-harness-reference")
+	var sb strings.Builder
+	w := bufio.NewWriter(c17Writer{&sb})
+	err := NewLuaEncoder(ConfiguredLuaPreferences).Encode(w, vDoc(vMap(vStr("k"), vInt(text))))
+	_ = w.Flush()
+	verifAssert(err == nil, "C14/lua-encode-error number")
+	if err != nil {
+		return
+	}
+	out := sb.String()
+	if _, asIs := c14LuaNumeral(text); !asIs {
+		// a spelling Lua does not read has to be rewritten: the decimal numeral of the value is what is expected
+		verifAssert(verifEqStr(out, "return {\n\t[\"k\"] = "+verifItoa(val)+";\n};\n"), "C14/lua-number-is-no-lua-numeral")
+		verifCover("C14/luanum/end")
+		return
+	}
+	i := strings.Index(out, "= ")
+	j := strings.Index(out, ";")
+	verifAssert(i >= 0 && j > i, "C14/lua-output-shape number")
+	if i < 0 || j <= i {
+		return
+	}
+	got, ok := c14LuaNumeral(out[i+2 : j])
+	verifObserve("numeral", out[i+2:j])
+	verifAssert(ok, "C14/lua-number-is-no-lua-numeral")
+	if ok {
+		verifAssert(got == val, "C14/lua-number-denotes-another-value")
+	}
+	verifCover("C14/luanum/end")
+}
